@@ -18,6 +18,9 @@ PURE_BUILTINS = {'len', 'min', 'max', 'sorted', 'list', 'set', 'dict', 'tuple', 
                  'iteritems', 'zip', 'map', 'filter', 'repr', 'frozenset', 'dir', 'vars'}
 
 
+CLOCK_ALIASES = {'monotonicTime'}       # local names under which a clock function is imported (filled while indexing)
+
+
 class AnalysisError(Exception):
     """An anchor/role vanished, a file does not parse, or the code uses a construct the
     analyser does not interpret.  Mapped to exit status 2, never to a violation."""
@@ -206,6 +209,9 @@ class Program(object):
     def _index_import(self, m, st):
         if isinstance(st, ast.ImportFrom):
             mod = st.module or ''
+            for a in st.names:
+                if a.name in ('monotonic', 'time', 'perf_counter'):
+                    CLOCK_ALIASES.add(a.asname or a.name)
             if st.level >= 1 or mod.startswith(PKG):
                 modname = mod.split('.')[-1] if mod else ''
                 for a in st.names:
